@@ -66,6 +66,12 @@ PROJECTS = {
     'intersphinx_like': (dict(site.PROJECT_B), ['--project-name', 'proj', '--html-viewsource-base', 'http://example.org/src', '--project-url', 'http://example.org',
                                                 '--privacy', 'HIDDEN:pk.mod.Hid', '--privacy', 'PRIVATE:pk.sub'], 'with_base'),
     'buildtime_option': (dict(site.PROJECT_B), ['--project-name', 'proj', '--buildtime', '2020-02-02 02:02:02', '--theme', 'readthedocs'], 'no_epoch'),
+    # a star import of a module without __all__, several of the names re-exported by the importer
+    'star_reexport': ({'sr/__init__.py': 'from ._impl import *\n__all__ = ["Alpha", "Beta", "Gamma", "Delta", "Epsilon", "zeta", "eta"]\n',
+                       'sr/_impl.py': ''.join(f'class {n}:\n    "doc"\n    def m(self): "doc"\n' for n in ('Alpha', 'Beta', 'Gamma', 'Delta', 'Epsilon')) + 'def zeta(): "doc"\ndef eta(): "doc"\nkept = 1\n',
+                       'sr/user.py': 'from sr import *\nclass U(Alpha, Beta): pass\n'}, ['--project-name', 'sr'], None),
+    # expandable sidebar entries (ids are generated while the pages are rendered)
+    'sidebar_expanded': (dict(site.PROJECT_B), ['--project-name', 'proj', '--sidebar-expand-depth', '3', '--sidebar-toc-depth', '3'], None),
     # the epoch itself is a valid value of SOURCE_DATE_EPOCH
     'epoch_zero': ({'ez.py': '"""Module."""\nclass K:\n    "doc"\n'}, ['--project-name', 'ez'], 'epoch0'),
     # interfaces that reach a class only through its bases, several of them declaring the method the class overrides without a docstring
@@ -76,7 +82,9 @@ PROJECTS = {
                                    'st/impl.py': 'from zope.interface import implementer\nfrom st.ifaces import *\n' + ''.join(
                                        f'@implementer(I{n})\nclass {n}:\n    "Implements {n}."\n' for n in ('Reader', 'Writer', 'Seekable', 'Pollable', 'Lockable', 'Mappable'))
                                        + 'class Pipe(Reader, Writer, Seekable, Pollable, Lockable, Mappable):\n    "All of them, inherited."\n    def close(self):\n        pass\n'
-                                       + 'class Half(Mappable, Lockable, Pollable):\n    def close(self):\n        pass\n'},
+                                       + 'class Half(Mappable, Lockable, Pollable):\n    def close(self):\n        pass\n'
+                                       # several interfaces that arrive through one and the same base
+                                       + 'class Multi(Pipe):\n    def close(self):\n        pass\nclass Multi2(Half, Reader):\n    def close(self):\n        pass\n'},
                                   ['--project-name', 'st'], None),
 }
 
@@ -85,7 +93,7 @@ def _cases(tier, seed):
     names = list(PROJECTS)
     if tier == 'quick':
         names = ['single_root_unnamed', 'two_roots_unnamed', 'three_roots_named', 'zope_and_subclasses', 'docstring_errors', 'buildtime_option', 'case_pairs',
-                 'epoch_zero', 'zope_inherited_interfaces']
+                 'epoch_zero', 'zope_inherited_interfaces', 'star_reexport', 'sidebar_expanded']
     for n in names:
         yield {'project': n}
     if tier == 'thorough':
@@ -170,7 +178,7 @@ HARNESS = {
     f'{D}:get_system': {'cases': _cases, 'check': _check,
         'covers': [f'{D}:make', f'{M}:System.addPackage', f'{M}:System.root_names', 'pydoctor/templatewriter/util.py:objects_order',
                    'pydoctor/templatewriter/summary.py:_lckey', 'pydoctor/templatewriter/writer.py:TemplateWriter.writeSummaryPages'],
-        'bound': '9 (12) projects (one/two/three roots, with and without --project-name, 23 cross-importing modules, zope interfaces with 12 implementers, '
+        'bound': '11 (14) projects (one/two/three roots, with and without --project-name, 23 cross-importing modules, zope interfaces with 12 implementers, '
                  'reported docstring errors, source links, --buildtime) x {hash seed 1, hash seed 2, hash seed 77 with reversed directory listings, reused '
                  'output directory}; fresh interpreter per run; sha256 of every written file',
         'budget_s': {'quick': 400, 'thorough': 2400}},
